@@ -72,6 +72,26 @@ def compare(ctx, cfg, pg, dim_max):
                 break
         sd = [math.sqrt(max(v, 0.0)) for v in var]
         bad = False
+        # the element-wise routes get_cov / get_corr must give the same matrix entries
+        dist = coal.sfs if kind == 'u' else coal.fsfs
+        idx = list(range(1, n)) if kind == 'u' else list(range(1, n // 2 + 1))
+        pairs = [(i, j) for i in idx for j in idx]
+        random.Random(len(pairs)).shuffle(pairs)
+        for (i, j) in pairs[:6] + [(0, 1), (n, 1)]:
+            with C.LogCapture():
+                gc = float(dist.get_cov(i, j))
+            scale = abs(cov[i][j] + mean[i] * mean[j]) + abs(mean[i] * mean[j])
+            if not (abs(gc - cov[i][j]) <= 1e-6 * scale + 1e-300):
+                ctx.violation(f'get_cov:{kind}', cfg=cfg, kind=kind, i=i, j=j, expected=cov[i][j], observed=gc, scale=scale)
+                bad = True; break
+            if sd[i] > 1e-9 and sd[j] > 1e-9:
+                with C.LogCapture():
+                    gr = float(dist.get_corr(i, j))
+                if not abs(gr - cov[i][j] / (sd[i] * sd[j])) <= 1e-5:
+                    ctx.violation(f'get_corr:{kind}', cfg=cfg, kind=kind, i=i, j=j, expected=cov[i][j] / (sd[i] * sd[j]), observed=gr)
+                    bad = True; break
+        if bad:
+            continue
         for i in range(n + 1):
             for j in range(n + 1):
                 scale = abs(cov[i][j] + mean[i] * mean[j]) + abs(mean[i] * mean[j])
